@@ -43,8 +43,12 @@ UNIVERSE = ["h1:11211", "h2:11211", "10.0.0.3:11211", "/var/run/mc.sock", "cache
 TIE_PAIR = ("cache-a-ablg.internal:11211", "cache-b-qcn5.internal:11211")
 
 
+# keys that compare (and hash) equal but are different keys: the rule formats the key, '7' is not '7.0'
+EQUAL_BUT_DIFFERENT = [7, 7.0, 1, True, 1.0, 0, False, 0.0, -0.0, "7", 7.5]
+
+
 def corpus(n):
-    keys = []
+    keys = list(EQUAL_BUT_DIFFERENT)
     i = 0
     while len(keys) < n:
         keys += [f"key{i}", f"user:{i}:profile", str(i), f"{i:08x}", "k" * (i % 40 + 1) + str(i), f"é{i}"]
@@ -127,6 +131,35 @@ def _w_sets(job, chk):
     if nodeset == tuple(UNIVERSE[:3]):
         chk.sample({"part": "sets", "nodes": list(UNIVERSE[:3]), "keys": [repr(k) for k in keys[:4]],
                     "placement": [str(x) for x in place_impl(UNIVERSE[:3], keys[:4])]})
+
+
+ODD_NODE_SETS = [(0, 1, 2), (3, 0, 1, 2), ("", "a", "b"), (0, "", "n1")]
+
+
+def _w_oddnodes(job, chk):
+    """Rings used directly with node ids that are not host names: small ints (shard numbers, 0 among them)
+    and the empty string.  Every insertion order gives the rule's placement and every node gets keys."""
+    nodes, tier = job
+    keys = corpus(600 if tier == "quick" else 2000)
+    ref = [str(rendezvous(nodes, k)) for k in keys]
+    for perm in itertools.permutations(nodes):
+        got = [str(x) for x in place_impl(perm, keys)]
+        chk.add()
+        chk.outcome(("oddnodes", perm))
+        if got != ref:
+            i = next(i for i in range(len(keys)) if got[i] != ref[i])
+            chk.violation("differs-from-rendezvous-rule|unusual-node-ids",
+                          f"nodes {list(perm)!r} (in this insertion order): get_node({keys[i]!r}) = {got[i]!r}, the published rule "
+                          f"gives {ref[i]!r}", {"part": "oddnodes", "nodes": [repr(x) for x in perm], "key": repr(keys[i])})
+            break
+    cnt = collections.Counter(ref)
+    fair = len(keys) / len(nodes)
+    got = collections.Counter(str(x) for x in place_impl(nodes, keys))
+    for nd in nodes:
+        if not (0.5 * fair <= got.get(str(nd), 0) <= 1.5 * fair):
+            chk.violation("uneven-spread|unusual-node-ids", f"nodes {list(nodes)!r}: {nd!r} owns {got.get(str(nd), 0)} of {len(keys)} keys "
+                          f"(fair share {fair:.0f}; the rule gives it {cnt.get(str(nd), 0)})",
+                          {"part": "oddnodes", "nodes": [repr(x) for x in nodes], "key": None})
 
 
 def _w_bfs(job, chk):
@@ -309,7 +342,7 @@ def _w_seed(job, chk):
 
 def _w_all(job, chk):
     kind, arg = job
-    {"bfs": _w_bfs, "hash": _w_hash, "sets": _w_sets}[kind](arg, chk)
+    {"bfs": _w_bfs, "hash": _w_hash, "sets": _w_sets, "oddnodes": _w_oddnodes}[kind](arg, chk)
 
 
 def run(chk):
@@ -320,7 +353,7 @@ def run(chk):
     sets = [(ns, tier) for size in range(8, 0, -1) for ns in itertools.combinations(UNIVERSE, size)]
     sets.sort(key=lambda j: -(len(j[0]) if len(j[0]) <= (6 if tier == "thorough" else 5) else 1))
     runner.parallel(chk, _w_all, [("bfs", (tier, h, pat)) for h in ("murmur", "const", "parity") for pat in ("all", "even", "odd", "never", "ctor")] + [("hash", tier)]
-                    + [("sets", j) for j in sets])
+                    + [("oddnodes", (ns, tier)) for ns in ODD_NODE_SETS] + [("sets", j) for j in sets])
     seeds = [0, 1, 2, 12345, 4294967295] if tier == "quick" else [0, 1, 2, 3, 7, 12345, 99999, 4294967295]
     sub = chk.fresh()
     runner.parallel(sub, _w_seed, seeds)
@@ -336,6 +369,10 @@ def run(chk):
 
 def replay(detail):
     part = detail["part"]
+    if part == "oddnodes":
+        tmp = runner.Check(PROPERTY, LEVEL, "quick", 0)
+        _w_oddnodes((tuple(eval(x) for x in detail["nodes"]), "quick"), tmp)
+        return [v["what"] for v in tmp.violations.values()]
     if part in ("sets", "perm", "tie"):
         nodes = detail.get("perm") or detail["nodes"]
         hf = {"const": const_hash, "parity": parity_hash}.get(detail.get("hash"))
